@@ -1,1 +1,280 @@
-//! c05 harnesses
+//! C05 (bit-set level) — the event-id stores: nothing set is lost, nothing delivered was not
+//! set, merging allowed (BitSet) / counted exactly (CountingBitSet).
+//!
+//! (K) symbolic histories vs. a set / multiset model, capacity 10 (crosses the 8-bit element
+//!     boundary).  (S) notifiers setting ids racing with a draining listener.
+//! The state hand-shake + trigger of `event::common` is checked in `cal::c05ev` (feature cal).
+
+use crate::common::*;
+use iceoryx2_bb_lock_free::mpmc::bit_set::FixedSizeBitSet;
+use iceoryx2_bb_lock_free::mpmc::counting_bit_set::FixedSizeCountingBitSet;
+
+/// BitSet history: set(id) / reset_next() / reset_all() vs a bit-mask model
+proof!(12, fn c05_bitset_history() {
+    const CAP: usize = 10;
+    let s = FixedSizeBitSet::<CAP>::new();
+    assert!(s.capacity() == CAP);
+    let mut m: u32 = 0;
+    let mut crossed = false;
+    let mut step = 0;
+    while step < 4 {
+        let op: u8 = kani::any();
+        let id: usize = kani::any();
+        kani::assume(id < CAP);
+        match op {
+            0 | 1 => {
+                let newly = s.set(id);
+                assert!(newly == ((m >> id) & 1 == 0), "c05: set() reports the wrong 'newly set' state");
+                m |= 1 << id;
+                if id >= 8 {
+                    crossed = true;
+                }
+            }
+            2 => match s.reset_next() {
+                Some(i) => {
+                    assert!(i < CAP && (m >> i) & 1 == 1, "c05: reset_next delivered an id that was not set (phantom)");
+                    m &= !(1 << i);
+                }
+                None => assert!(m == 0, "c05: reset_next found nothing although an id is set (lost)"),
+            },
+            _ => {
+                let mut got: u32 = 0;
+                s.reset_all(|i| {
+                    assert!(i < CAP && (got >> i) & 1 == 0, "c05: reset_all delivered an id twice");
+                    got |= 1 << i;
+                });
+                assert!(got == m, "c05: reset_all differs from the set ids (lost or phantom)");
+                m = 0;
+            }
+        }
+        step += 1;
+    }
+    let mut got: u32 = 0;
+    s.reset_all(|i| got |= 1 << i);
+    assert!(got == m, "c05: final drain differs from the model");
+    kani::cover!(crossed && m != 0, "an id beyond the first 8-bit element is pending at the end");
+    canaries();
+});
+
+/// CountingBitSet history: set(id) returns the previous count, reset_all reports exact counts
+proof!(8, fn c05_counting_bitset_history() {
+    const CAP: usize = 3;
+    let s = FixedSizeCountingBitSet::<CAP>::new();
+    let mut m = [0u64; CAP];
+    let mut merged = false;
+    let mut step = 0;
+    while step < 5 {
+        let id: usize = kani::any();
+        kani::assume(id < CAP);
+        if kani::any() {
+            let prev = s.set(id);
+            assert!(prev == m[id], "c05: counting set() returned the wrong previous count");
+            m[id] += 1;
+            if m[id] >= 2 {
+                merged = true;
+            }
+        } else {
+            let mut got = [0u64; CAP];
+            s.reset_all(|st| {
+                assert!(st.bit() < CAP && got[st.bit()] == 0 && st.count() > 0);
+                got[st.bit()] = st.count();
+            });
+            let mut i = 0;
+            while i < CAP {
+                assert!(got[i] == m[i], "c05: delivered count differs from the number of notifications");
+                m[i] = 0;
+                i += 1;
+            }
+        }
+        step += 1;
+    }
+    kani::cover!(merged, "one id notified twice before a drain");
+    canaries();
+});
+
+// ==========================================================================================
+// engine S
+// ==========================================================================================
+
+#[cfg(feature = "sched")]
+pub mod sched {
+    use super::*;
+    use iceoryx2_pal_concurrency_sync::verif_atomic::{verif_clear_hook, verif_set_hook};
+
+    const CAP: usize = 10;
+    const MAXSET: usize = 3;
+    const DRAINS: usize = 3;
+
+    /// timestamps come from one global clock that ticks at every recorded event
+    pub struct Book {
+        pub clock: u32,
+        pub budget: usize,
+        pub in_inner: u8,
+        pub mid: u8,
+        pub set_mid: usize,
+        pub nset: usize,
+        pub set_id: [usize; MAXSET],
+        pub set_begin: [u32; MAXSET],
+        pub set_end: [u32; MAXSET],
+    }
+    pub static mut BOOK: Book = Book { clock: 1, budget: 0, in_inner: 2, mid: 2, set_mid: 0, nset: 0,
+        set_id: [0; MAXSET], set_begin: [0; MAXSET], set_end: [0; MAXSET] };
+    pub static mut BPTR: usize = 1;
+
+    unsafe fn bs() -> &'static FixedSizeBitSet<CAP> {
+        &*(BPTR as *const FixedSizeBitSet<CAP>)
+    }
+
+    fn tick() -> u32 {
+        unsafe {
+            BOOK.clock += 1;
+            BOOK.clock
+        }
+    }
+
+    pub fn hook_notifier() {
+        unsafe {
+            if BOOK.in_inner == 1 {
+                return;
+            }
+            BOOK.in_inner = 1;
+            if BOOK.budget > 0 && kani::any::<bool>() {
+                BOOK.budget -= 1;
+                let id: usize = kani::any();
+                kani::assume(id == 1 || id == 8 || id == 9);
+                let n = BOOK.nset;
+                BOOK.set_id[n] = id;
+                BOOK.set_begin[n] = tick();
+                bs().set(id);
+                BOOK.set_end[n] = tick();
+                BOOK.nset += 1;
+                if BOOK.mid == 1 {
+                    BOOK.set_mid += 1;
+                }
+            }
+            BOOK.in_inner = 2;
+        }
+    }
+
+    /// listener drains (reset_all, reset_next, reset_all) while notifiers set ids at any of its
+    /// shared-memory operations.
+    ///  * no lost notification: a set() that completed before drain k began is delivered by some
+    ///    drain m <= k that ended after the set completed;
+    ///  * no phantom: every delivered id was set by a set() that began before that drain ended,
+    ///    and an id is never delivered more often than it was set.
+    proof!(12, fn c05_s_bitset_drain_race() {
+        let s = FixedSizeBitSet::<CAP>::new();
+        unsafe {
+            BPTR = &s as *const _ as usize;
+            BOOK.budget = MAXSET;
+            hook_notifier(); // optionally one notification before the first drain
+            verif_set_hook(hook_notifier);
+            let mut begin = [0u32; DRAINS];
+            let mut end = [0u32; DRAINS];
+            let mut got = [[false; CAP]; DRAINS];
+            let mut k = 0;
+            while k < DRAINS {
+                if k == DRAINS - 1 {
+                    verif_clear_hook(); // final quiescent drain
+                }
+                begin[k] = tick();
+                BOOK.mid = 1;
+                if k == 1 {
+                    if let Some(i) = s.reset_next() {
+                        got[k][i] = true;
+                    }
+                } else {
+                    let g = &mut got[k];
+                    s.reset_all(|i| {
+                        assert!(!g[i], "c05: reset_all delivered an id twice");
+                        g[i] = true;
+                    });
+                }
+                BOOK.mid = 2;
+                end[k] = tick();
+                k += 1;
+            }
+            // no lost notification
+            let mut n = 0;
+            while n < MAXSET {
+                if n < BOOK.nset {
+                    let id = BOOK.set_id[n];
+                    let mut k = 0;
+                    while k < DRAINS {
+                        // reset_next (drain 1) delivers at most one id: only reset_all drains are
+                        // obliged to deliver everything that was pending when they began
+                        if k != 1 && begin[k] > BOOK.set_end[n] {
+                            let mut ok = false;
+                            let mut m = 0;
+                            while m < DRAINS {
+                                if m <= k && end[m] > BOOK.set_end[n] && got[m][id] {
+                                    ok = true;
+                                }
+                                m += 1;
+                            }
+                            assert!(ok, "c05: a notification completed before a drain began was never delivered (lost)");
+                        }
+                        k += 1;
+                    }
+                }
+                n += 1;
+            }
+            // reset_next must find something if anything was pending when it began
+            {
+                let mut pending_before = false;
+                let mut n = 0;
+                while n < MAXSET {
+                    if n < BOOK.nset && BOOK.set_end[n] < begin[1] && !(end[0] > BOOK.set_end[n] && got[0][BOOK.set_id[n]]) {
+                        pending_before = true;
+                    }
+                    n += 1;
+                }
+                let mut found = false;
+                let mut i = 0;
+                while i < CAP {
+                    if got[1][i] {
+                        found = true;
+                    }
+                    i += 1;
+                }
+                if pending_before {
+                    assert!(found, "c05: reset_next found nothing although a notification was pending");
+                }
+            }
+            // no phantom, never more deliveries than notifications
+            let mut i = 0;
+            while i < CAP {
+                let mut deliveries = 0;
+                let mut m = 0;
+                while m < DRAINS {
+                    if got[m][i] {
+                        deliveries += 1;
+                        let mut justified = false;
+                        let mut n = 0;
+                        while n < MAXSET {
+                            if n < BOOK.nset && BOOK.set_id[n] == i && BOOK.set_begin[n] < end[m] {
+                                justified = true;
+                            }
+                            n += 1;
+                        }
+                        assert!(justified, "c05: delivered an id that was never notified (phantom)");
+                    }
+                    m += 1;
+                }
+                let mut sets = 0;
+                let mut n = 0;
+                while n < MAXSET {
+                    if n < BOOK.nset && BOOK.set_id[n] == i {
+                        sets += 1;
+                    }
+                    n += 1;
+                }
+                assert!(deliveries <= sets, "c05: an id was delivered more often than it was notified");
+                i += 1;
+            }
+            kani::cover!(BOOK.set_mid >= 1, "a notification landed in the middle of a drain");
+            kani::cover!(BOOK.set_mid >= 2, "two notifications landed in the middle of drains");
+        }
+        canaries();
+    });
+}
